@@ -185,6 +185,7 @@ def block_kind(b):
 
 # --------------------------------------------------------------------------- generators
 
+LONG_M = ["firstVeryLongMemberName", "secondVeryLongMemberName", "thirdQuiteLongMemberName"]
 LONG = ["VeryLongVariantNameOne", "VeryLongVariantNameTwo", "AnotherQuiteLongNameThree", "YetAnotherLongishNameFour"]
 WORDS = ["alpha", "beta", "gamma", "a somewhat longer literal", "delta", "", "x"]
 
@@ -229,9 +230,11 @@ def gen_accepted(rng, idx):
             vs = ", ".join(f"{n}(int)" if j != k else f"{n}(int, int)" for j, n in enumerate(ns))
             arms = ", ".join((f"{n}(a) -> a" if j != k else f"{n}(a, b) -> a + b") for j, n in enumerate(ns))
             return f"class {cls}({vs}, Sm{cls}) {{\n  method pick(): int = match (this) {{ {arms}, Sm{cls} -> 0 }}\n}}\n"
-        src["names.One"] = enum("Sel", names, 0)
-        src["names.Two"] = enum("Les", list(reversed(names)), 1)
-        extra_imports += ["import { Sel } from names.One;", "import { Les } from names.Two;"]
+        m1, m2 = rng.pick([("names.One", "names.Two"), ("ModuleWithLongNameAlpha", "ModuleWithLongNameBeta"),
+                           ("pkg.ModuleWithLongNameBeta", "AnotherVeryLongPackageName.Sel"), ("sixteenByteNameX", "fifteenByteName")])
+        src[m1] = enum("Sel", names, 0)
+        src[m2] = enum("Les", list(reversed(names)), 1)
+        extra_imports += [f"import {{ Sel }} from {m1};", f"import {{ Les }} from {m2};"]
         extra_calls.append(f" Process.println(Str.fromInt(Sel.{names[1]}({rng.range(1, 9)}).pick() + Les.{names[-1]}({rng.range(1, 9)}).pick()));")
     # recursion / loops: work for the per-function parallel optimiser
     n = rng.range(3, 12)
@@ -336,7 +339,8 @@ def err_snippets(rng, i, avoid_known=True):
         # long identifiers (heap strings) shared with other modules in a different order (C12-F2 shape)
         (f"class Lg{i}(Sh{i}(int), {', '.join(n + '(int)' for n in (LONG if i % 2 == 0 else list(reversed(LONG))))}) {{\n"
          f"  function f(e: Lg{i}): int = match (e) {{ Sh{i}(_) -> 1 }}\n  function g(e: Lg{i}): int = match (e) {{ {LONG[i % 4]}(_) -> 1, Sh{i}(0) -> 2 }}\n}}"),
-        (f"interface Jl{i} {{ method {LONG[0]}(): int method {LONG[1]}(): int method short(): int method {LONG[2]}(): int }}\nclass Kl{i} : Jl{i} {{ }}"),
+        ("interface Jl%d { %s }\nclass Kl%d : Jl%d { }" % (i, " ".join(f"method {n}(): int" for n in ((LONG_M + ["short"]) if i % 2 == 0 else (["short"] + list(reversed(LONG_M))))), i, i)),
+        (f"class Sl{i}(val {LONG_M[i % 3]}: int, val {LONG_M[(i + 1) % 3]}: int, val sh: int) {{ function f(s: Sl{i}): int = {{ let {{ sh }} = s; sh }} }}"),
         f"class Pr{i} {{ private function p(): int = 1 }}\nclass Pq{i} {{ function f(): int = Pr{i}.p() }}",
     ]
     if True:
@@ -346,7 +350,8 @@ def err_snippets(rng, i, avoid_known=True):
 
 def gen_rejected(rng, idx):
     nmod = rng.weighted([(1, 3), (2, 3), (3, 3), (4, 1)])
-    names = ["Main", "lib.Two", "Three", "a.b.Four"][:nmod]
+    names = ["Main"] + gen_module_names(rng, 3)
+    names = [x for i, x in enumerate(names) if x not in names[:i]][:nmod]
     src, nerr = {}, 0
     for k, m in enumerate(names):
         pool = err_snippets(rng, k)
@@ -369,6 +374,26 @@ def gen_rejected(rng, idx):
     if "Main" in src:
         src["Main"] += "class Main { function main(): unit = Process.println(\"hi\") }\n"
     return {"sources": src, "entry": "Main", "std": rng.chance(1, 3), "kind": "rejected", "id": idx}
+
+
+def gen_rejected_longnames(rng, idx):
+    """2-4 modules whose names have parts of > 15 bytes (heap strings, ordered by allocation id), each
+    mentioning the same long identifiers first in a different order, with diagnostics that sort or
+    select by those identifiers (missing members, unbound fields, counterexample choice)."""
+    nmod = rng.range(2, 4)
+    names = []
+    while len(names) < nmod:
+        x = ".".join([rng.pick(NAME_PARTS_SHORT)] * rng.below(2) + [rng.pick(NAME_PARTS_LONG) + rng.pick(["", "0", "1"])])
+        if x not in names:
+            names.append(x)
+    src = {}
+    for k, m in enumerate(names):
+        pool = err_snippets(rng, k)
+        special = [sn for sn in pool if sn.startswith((f"interface Jl{k}", f"class Sl{k}", f"class Lg{k}"))]
+        parts = rng.shuffle(special)[:rng.range(1, 3)] + [rng.pick(pool) for _ in range(rng.below(3))]
+        parts = [x for i, x in enumerate(parts) if x not in parts[:i] and not x.startswith("import")]
+        src[m] = f"class Ok{k} {{ function v(): int = {k} }}\n" + "\n".join(parts) + "\n"
+    return {"sources": src, "entry": names[0], "std": False, "kind": "rejected", "id": idx}
 
 
 def seed_shape(rng, idx):
@@ -821,6 +846,65 @@ def cex_leg(ctx, stats):
     stats["cex"] = {"cases": n, "non_exhaustive": nonexh, "answers_compared_per_case": 12,
                     "model_agrees": agree, "model_differs_(C07's business)": differ}
 
+# --------------------------------------------------------------------------- parse order of the modules
+
+NAME_PARTS_SHORT = ["A", "B", "lib", "pkg", "Zeta", "m", "fifteenByteName"]          # <= 15 bytes (inline PStr)
+NAME_PARTS_LONG = ["ModuleWithLongNameAlpha", "ModuleWithLongNameBeta", "sixteenByteNameX",
+                   "AnotherVeryLongPackageName", "ModuleWithLongName"]                 # > 15 bytes (heap PStr)
+
+
+def gen_module_names(rng, n):
+    """n distinct dotted module names mixing inline (<= 15 bytes) and heap (> 15 bytes) parts."""
+    out = []
+    while len(out) < n:
+        k = rng.weighted([(1, 5), (2, 3), (3, 1)])
+        parts = [rng.pick(NAME_PARTS_LONG if rng.chance(1, 2) else NAME_PARTS_SHORT) for _ in range(k)]
+        if rng.chance(1, 4):
+            parts[-1] += str(rng.below(3))
+        name = ".".join(parts)
+        if name not in out:
+            out.append(name)
+    return out
+
+
+def ordkey_leg(ctx, stats):
+    """Asks the real `compile_sources` in which order it parses N modules (read off the heap call
+    log) under two allocation orders of the module references: the order must be the same, and be
+    the name order of Model/ModuleOrder.lean (`orderByName`) and of an independent Python sort."""
+    rng = ctx.rng.fork()
+    n = ctx.scale(60, 600)
+    lines, mlines = [], []
+    for _ in range(n):
+        names = gen_module_names(rng, rng.range(2, 6))
+        hx = ";".join(hexs(x) for x in names)
+        idx = list(range(len(names)))
+        lines += [f"po {','.join(map(str, rng.shuffle(idx)))} {hx}", f"po {','.join(map(str, rng.shuffle(idx)))} {hx}"]
+        mlines.append(f"pord {hx}")
+    rc, impl, err = common.run_exec(BIN(), ["ordkey"], lines)
+    rc2, model, err2 = common.run_exec(common.driver_bin("C12"), [], mlines)
+    long_cases = 0
+    for i, ml in enumerate(mlines):
+        names = [common.unhex(h).decode() for h in ml.split(" ")[1].split(";")]
+        a1 = impl[2 * i] if 2 * i < len(impl) else "<missing>"
+        a2 = impl[2 * i + 1] if 2 * i + 1 < len(impl) else "<missing>"
+        want = ",".join(str(k) for k in sorted(range(len(names)), key=lambda k: names[k].encode()))
+        if sum(1 for x in names if any(len(p_) > 15 for p_ in x.split("."))) >= 2:
+            long_cases += 1
+        payload = {"protocol": "ordkey", "module_names": names, "lines": lines[2 * i:2 * i + 2], "parse_orders": [a1, a2],
+                   "name_order": want, "model": model[i] if i < len(model) else "<missing>"}
+        if a1 != a2:
+            ctx.violation("compile_sources parses the same modules in a different order when their module references are allocated in a different order "
+                          "(the parse order decides heap string ids and thereby PStr-ordered diagnostics)", payload)
+            return
+        if a1 != want:
+            ctx.violation("compile_sources does not parse the modules in module-name order", payload)
+            return
+        if i >= len(model) or model[i] != a1:
+            ctx.violation("model/implementation disagreement on protocol ordkey (Model/ModuleOrder.lean vs compile_sources parse order)",
+                          dict(payload, broken="correspondence ordkey"), no_input=True)
+            return
+    stats["ordkey"] = {"name_sets": n, "with_two_or_more_long_named_modules": long_cases}
+
 # --------------------------------------------------------------------------- shared temp counter / thread schedule
 
 def tempctr_leg(ctx, stats):
@@ -927,6 +1011,7 @@ def run(ctx):
     errset_leg(ctx, stats)
     layout_leg(ctx, stats)
     cex_leg(ctx, stats)
+    ordkey_leg(ctx, stats)
     tempctr_leg(ctx, stats)
     schedule_leg(ctx, stats)
     rng = ctx.rng
@@ -938,7 +1023,9 @@ def run(ctx):
     n_seed = ctx.scale(16, 120)
     p_acc = ctx.scale(6, 16)
     p_rej = ctx.scale(10, 24)
-    plan = [("acc", i) for i in range(n_acc)] + [("rej", i) for i in range(n_rej)] + [("shape", i) for i in range(n_seed)]
+    n_long = ctx.scale(14, 150)
+    plan = ([("acc", i) for i in range(n_acc)] + [("rej", i) for i in range(n_rej)] + [("shape", i) for i in range(n_seed)]
+            + [("long", i) for i in range(n_long)])
     for kind, i in plan:
         if len(ctx.violations) >= 3:
             break
@@ -947,6 +1034,8 @@ def run(ctx):
             prog = gen_accepted(r, i); nproc = p_acc
         elif kind == "rej":
             prog = gen_rejected(r, i); nproc = p_rej
+        elif kind == "long":
+            prog = gen_rejected_longnames(r, i); nproc = p_rej
         else:
             prog = seed_shape(r, i); nproc = p_rej
         ok, answers = check_program(ctx, prog, r, nproc, stats, f"generated {kind}#{i} seed={ctx.seed}")
@@ -971,10 +1060,11 @@ def run(ctx):
                 "underconstrained generics, or-pattern bindings, struct bindings, private access)",
         "samples": samples, "traces_validated_against_impl": stats["traces"] + stats.get("errset_ok", 0) + stats.get("layout_ok", 0),
         "generators_available": {"scopegen": scopegen is not None},
+        "parse_order_correspondence": stats.get("ordkey"),
         "temp_counter_correspondence": stats.get("tempctr"), "threads_1_vs_16": stats.get("schedule"),
         "counterexample_search_permuted_maps": stats.get("cex", stats.get("cex_skipped")),
         "layout_cases_ok": stats.get("layout_ok", 0), "layout_cases_skipped": stats.get("layout_skipped", 0),
-        "programs": n_acc + n_rej + n_seed, "program_streams": {"accepted_stream": n_acc, "rejected_stream": n_rej, "root_complete_nested_gap_stream": n_seed},
+        "programs": n_acc + n_rej + n_seed + n_long, "program_streams": {"long_module_names_and_identifiers_stream": n_long, "accepted_stream": n_acc, "rejected_stream": n_rej, "root_complete_nested_gap_stream": n_seed},
         "processes_per_program": {"accepted": p_acc, "rejected": p_rej},
         "verdict_histogram": stats["verdicts"], "error_kind_histogram": stats["error_kinds"],
         "diag_blocks_total": stats["diag_blocks"],
